@@ -254,7 +254,18 @@ class _ReusablePoolExecutor(ProcessPoolExecutor):
             ):
                 time.sleep(1e-3)
 
-            self._adjust_process_count()
+            if self._flags.broken is not None:
+                # A worker died meanwhile: the executor is being torn down
+                # and its queues are closed, new workers cannot be spawned.
+                # The next submit reports the terminated worker.
+                return
+            try:
+                self._adjust_process_count()
+            except OSError:
+                if self._flags.broken is None:
+                    raise
+                # Same as above, detected between the test and the spawn.
+                return
             # The manager thread only watches for the death of the workers
             # that existed when it went back to waiting: make it look again.
             with self._flags.shutdown_lock:
